@@ -171,7 +171,8 @@ def plot_cases(draw):
     case = {"ns": ns, "kind": kind, "sizes": [draw(st.integers(1, 6)) for _ in range(ns)],
             "offsets": [gens.rounded(draw(gens.fl(-40, 40)), 6) for _ in range(ns - 1)],
             "which": draw(st.sampled_from(["rv_curves", "phase_fold"])), "seed": draw(st.integers(0, 10**6)),
-            "unit": draw(st.sampled_from(["km/s", "m/s"]))}
+            "unit": draw(st.sampled_from(["km/s", "m/s"])), "plot_unit": draw(st.sampled_from(["km/s", "m/s"])),
+            "remove_trend": draw(st.booleans())}
     if kind == "dict":
         if draw(st.booleans()):
             case["keys"] = list(draw(st.permutations(["a", "bb", "c", "D"][:ns])))
@@ -216,36 +217,48 @@ def plot_body_factory(ctx):
         s["v0"] = [0.0] * u.km / u.s
         for r in range(1, ns):
             s["dv0_%d" % r] = [case["offsets"][r - 1]] * u.km / u.s
-        fig, ax = plt.subplots()
-        try:
-            with ctx.sut("plot_" + case["which"]):
-                if case["which"] == "rv_curves":
-                    tj.plot_rv_curves(s, data=data, ax=ax, rv_unit=un, t_grid=np.linspace(t0, t0 + 10, 8))
-                else:
-                    tj.plot_phase_fold(s, data=data, ax=ax, remove_trend=False)
-            cont = [c for c in ax.containers if type(c).__name__ == "ErrorbarContainer"]
-            if not cont:
-                raise Violation("no data points were drawn")
-            y = np.asarray(cont[0].lines[0].get_ydata(), dtype=float)
-        finally:
-            plt.close(fig)
-        # every plotted point: its tag tells the survey; the survey's own offset (and only that) must have been removed
+        before = [(np.array(d.rv.value, copy=True), np.array(d.rv_err.value, copy=True), np.array(d._t_bmjd, copy=True)) for d in ds]
+        pun = og.unit(case.get("plot_unit", case["unit"]))
+        fp = float(og.conv(1.0, "km/s", case.get("plot_unit", case["unit"])))
         n_tot = sum(case["sizes"])
-        if len(y) != n_tot:
-            raise Violation("plotted %d data points, %d observations given" % (len(y), n_tot))
-        y_kms = y / f
-        for val in y_kms:
-            best = None
-            for k in range(ns):
-                r = order.index(k)              # 0 = reference survey, r>=1 -> dv0_r
-                off = 0.0 if r == 0 else case["offsets"][r - 1]
-                resid = val + off - 1000.0 * (k + 1)
-                if -1e-6 <= resid <= case["sizes"][k] - 1 + 1e-6 and abs(resid - round(resid)) < 1e-6:
-                    best = k
-            if best is None:
-                raise Violation("a plotted velocity is not an observation with its own survey's offset removed",
-                                plotted_km_s=float(val), offsets=case["offsets"], keys=keys, kind=case["kind"], which=case["which"])
-        ctx.note_case(case, True, ["plot:" + case["which"], "plot:kind=" + case["kind"], "plot:ns=%d" % ns])
+        # the same call twice on the same objects: the second picture must show the same observations
+        for rep in ("first", "second"):
+            fig, ax = plt.subplots()
+            try:
+                with ctx.sut("plot_" + case["which"]):
+                    if case["which"] == "rv_curves":
+                        tj.plot_rv_curves(s, data=data, ax=ax, rv_unit=pun, t_grid=np.linspace(t0, t0 + 10, 8))
+                        fy = fp
+                    else:
+                        tj.plot_phase_fold(s, data=data, ax=ax, remove_trend=case.get("remove_trend", False))
+                        fy = f
+                cont = [c for c in ax.containers if type(c).__name__ == "ErrorbarContainer"]
+                if not cont:
+                    raise Violation("no data points were drawn")
+                y = np.asarray(cont[0].lines[0].get_ydata(), dtype=float)
+            finally:
+                plt.close(fig)
+            for d, (rv0, err0, tt0) in zip(ds, before):
+                if not (np.array_equal(d.rv.value, rv0) and np.array_equal(d.rv_err.value, err0) and np.array_equal(d._t_bmjd, tt0)):
+                    raise Violation("plot_%s modified the caller's RVData objects" % case["which"])
+            # every plotted point: its tag tells the survey; the survey's own offset (and only that) must have been removed
+            if len(y) != n_tot:
+                raise Violation("plotted %d data points, %d observations given" % (len(y), n_tot))
+            y_kms = y / fy
+            for val in y_kms:
+                best = None
+                for k in range(ns):
+                    r = order.index(k)              # 0 = reference survey, r>=1 -> dv0_r
+                    off = 0.0 if r == 0 else case["offsets"][r - 1]
+                    resid = val + off - 1000.0 * (k + 1)
+                    if -1e-6 <= resid <= case["sizes"][k] - 1 + 1e-6 and abs(resid - round(resid)) < 1e-6:
+                        best = k
+                if best is None:
+                    raise Violation("a plotted velocity is not an observation with its own survey's offset removed (%s call "
+                                    "on these data objects)" % rep, plotted_km_s=float(val), offsets=case["offsets"], keys=keys,
+                                    kind=case["kind"], which=case["which"], data_unit=case["unit"], plot_unit=case.get("plot_unit"))
+        ctx.note_case(case, True, ["plot:" + case["which"], "plot:kind=" + case["kind"], "plot:ns=%d" % ns,
+                                   "plot:unit %s data unit" % ("==" if case.get("plot_unit", case["unit"]) == case["unit"] else "!=")])
 
     return body
 
